@@ -17,11 +17,11 @@ from . import c01
 
 M = rc.FLAG_M
 
-VALUES = {
-    "i32": [-7, 2147483647], "i64": [-(1 << 40), 5], "u32": [7, 4294967295], "u64": [1 << 40, 9],
-    "f32": [1.5, -0.25], "f64": [2.5e10, -1e-3], "utf8": ["valué", "x"], "octets": [b"\x01\x02\x03", b"host.example"],
-    "time": [datetime.datetime(2024, 5, 6, 7, 8, 9), datetime.datetime(2040, 1, 2, 3, 4, 5)],
-    "addr": ["10.1.2.3", "2001:db8::5"], "raw": [b"raw", b"r"],
+VALUES = {   # third value: a valid but falsy one where the type has it
+    "i32": [-7, 2147483647, 0], "i64": [-(1 << 40), 5, 0], "u32": [7, 4294967295, 0], "u64": [1 << 40, 9, 0],
+    "f32": [1.5, -0.25, 0.0], "f64": [2.5e10, -1e-3, 0.0], "utf8": ["valué", "x", ""], "octets": [b"\x01\x02\x03", b"host.example", b""],
+    "time": [datetime.datetime(2024, 5, 6, 7, 8, 9), datetime.datetime(2040, 1, 2, 3, 4, 5), datetime.datetime(1970, 1, 1)],
+    "addr": ["10.1.2.3", "2001:db8::5", "0.0.0.0"], "raw": [b"raw", b"r", b""],
 }
 
 
@@ -151,8 +151,8 @@ class Builder:
             return ("c", sub(variant))
         vals = VALUES[tn]
         if lst:
-            return ("l", [vals[(variant + i) % 2] for i in range(nlist)])
-        return ("s", vals[variant % 2])
+            return ("l", [vals[(variant + 2 * i) % 3] for i in range(nlist)])     # 3 elements: v, falsy, other
+        return ("s", vals[variant % 3])
 
     def full_spec(self, cls, depth, variant=0):
         spec = {}
@@ -365,10 +365,18 @@ def work_class(args):
         return n, out       # not an AVP container by the library's own definition (e.g. the GenericSpec mix-in)
     extra = [rc.enc_avp(9_000_077, b"extra!", 0x20, 0), rc.u32(9_000_078, 5, M, 4242)]
     has_extra = is_message or any(f.name == "additional_avps" for f in dataclasses.fields(cls))
+    # undeclared AVPs that share a *code* with a declared attribute but not its vendor
+    collide = []
+    declared = {(d.avp_code, d.vendor_id) for d in defs_of(cls)}
+    for d in defs:
+        if d.type_class is None:
+            for ov in ((4242,) if d.vendor_id == 0 else (0, 4242)):
+                if (d.avp_code, ov) not in declared and len(collide) < 3:
+                    collide.append(rc.enc_avp(d.avp_code, b"not-mine", 0, ov))
     cases = [("none", {}, ())]
     depth1 = 2
     for i, d in enumerate(defs):
-        for variant in (0, 1):
+        for variant in (0, 1, 2):
             s = b.spec_for(cls, d, depth1, variant, 2)
             cases.append((f"single:{d.attr_name}:v{variant}", {d.attr_name: s}, ()))
         if b.is_list(cls, d.attr_name):
@@ -382,6 +390,9 @@ def work_class(args):
     if has_extra:
         cases.append(("all+extras", alls, tuple(extra)))
         cases.append(("none+extras", {}, tuple(extra)))
+        if collide:
+            cases.append(("all+colliding-extras", alls, tuple(collide)))
+            cases.append(("none+colliding-extras", {}, tuple(collide)))
     if defs:
         for j in sorted({0, len(defs) // 2, len(defs) - 1}):
             s = dict(alls)
